@@ -79,6 +79,12 @@ def gen(ctx):
                json.dumps({"Sid": "s", "Version": "1.3", "Type": "standalone", "NAT": "unknown", "Clients": "many"}).encode()]
     for b in pbodies:
         add("proxy-invalid", http_req("POST", "/proxy", b), "proxy", b, info=dict(ep="proxy"))
+    # well-formed polls whose accepted relay pattern does not cover the broker's allowed pattern: answered at once
+    # (200, "incorrect relay pattern"); they are spread over the batch so that later requests run after them
+    for i, pat in enumerate(["example.com$", "^snowflake.torproject.net.evil$", "^x$", "torproject.org$"]):
+        b = json.dumps({"Sid": "rej%d" % i, "Version": "1.3", "Type": "standalone", "NAT": "unknown", "Clients": 0,
+                        "AcceptedRelayPattern": pat}).encode()
+        add("proxy-rejected-pattern", http_req("POST", "/proxy", b), "proxy", b, info=dict(ep="proxy"))
     abodies = [b"", b"{}", json.dumps({"Version": "1.0", "Sid": "nosuch", "Answer": "a"}).encode(),
                json.dumps({"Version": "1.0", "Sid": "s", "Answer": ""}).encode(), json.dumps({"Version": "3.0", "Sid": "s", "Answer": "a"}).encode(),
                json.dumps({"Version": "1.0", "Sid": "", "Answer": "a"}).encode(), b"garbage", json.dumps({"Version": "1.0", "Sid": 5, "Answer": "a"}).encode()]
@@ -124,6 +130,7 @@ def run(ctx):
                         "net/http framing, MaxBytesReader and the AMP armor are library code: monitored (complete response, connection reusable, server alive), not modelled"]
     ctx.trusted.append("harness/overlay/broker/zz_verif_http_test.go (raw TCP client, real net/http server with the routes of main())")
     cases = gen(ctx)
+    cases.sort(key=lambda c: 0 if c[0] == "proxy-rejected-pattern" else 1)   # stable: the rejected polls go first
     lines = [c[1] for c in cases]
     rc, out, err = vlib.run_impl(exe, lines, args=["-test.run", "^TestVerifHttpDriver$"], env=env, timeout=900)
     if rc != 0 or len(out) != len(lines):
